@@ -638,6 +638,8 @@ def gen_view(r, cid, robust=False):
             events.append(["ph", k])
         elif x < 0.92 and split_case:
             events.append(["pb"])
+        elif x < 0.93 and pstarted:
+            events.append(["pt", r.choice([None, None, 0, 10, 40, 80, 200, 400, 700, 1500])])
         elif x < 0.94 and pstarted:
             events.append(["pr", r.random() < 0.5])
             events.append(["ps", plast])
@@ -693,14 +695,17 @@ def check_view(run, exe, model, cases, scratch, fixflags="1 1"):
         shared_at = {}
         Dp_at = {}
         mid = False                # between the two halves of a state-file rewrite of P, as R sees it
-        inside = False             # R has exchanged in such a window: the known hole (C14_meta_prefix_exchange_inside_state_rewrite_refuted)
+        mid_step = 0
+        inside = False             # (kept for the report) R has exchanged in such a window
         inside_at = {}
         for k, rec in enumerate(out):
             ev = rec["ev"]
             who = "p" if ev[0] in ("ps", "pr") else "r" if ev[0] in ("rs", "rr") else None
             if ev[0] in ("ps", "pr", "ph", "pb") and mid:
-                toks.append("wb")
+                toks.append("wa,%d" % mid_step)
                 mid = False
+            if ev[0] == "pt":
+                toks.append("sv,%d" % (0 if rec["state_partial"] else 1))
             if ev[0] in ("ps", "rs"):
                 nt = (t[who] if t[who] is not None else 0) if first[who] else t[who] + 1
                 rel0 = first[who]
@@ -717,8 +722,9 @@ def check_view(run, exe, model, cases, scratch, fixflags="1 1"):
                         inside = True
                 if rfq[who] > 0 and (not rel0) and nt % rfq[who] == 0:
                     if who == "p" and len(ev) > 2 and ev[2] == "split":
-                        toks.append("wa,%d" % nt)
+                        toks.append("wb")
                         mid = True
+                        mid_step = nt
                     else:
                         toks.append("w,%d" % nt if who == "p" else "o")
             elif ev[0] == "pr":
@@ -777,14 +783,8 @@ def check_view(run, exe, model, cases, scratch, fixflags="1 1"):
             mir = d["mirrors"].get("w1")
             Dp = Dp_at[k]
             cont = None
-            # the known hole (exchange inside a peer's state-file rewrite) is recognised by the faithful model
-            # predicting exactly what the implementation holds; anything else in such a case is a new defect
-            mq0 = mres[qat[k]] if (mres is not None and qat.get(k) is not None and qat[k] < len(mres)) else None
             known_hole = False
-            if inside_at[k] and mir is not None and mq0 is not None and mq0.get("mirror") is not None:
-                c0, ok0 = scen.content(mir, mir.get("grid"), NB)
-                known_hole = ok0 and c0 == counts_of(mq0["mirror"]["cont"], NB)
-            if mir is None and shared_at.get(k) and rec.get("files_ok", True) and rec["p_state_step"] is not None and c["robust"]:
+            if mir is None and shared_at.get(k) and rec.get("files_ok", True) and rec.get("view_state_step") is not None and c["robust"]:
                 run.violation("view:peer-ignored", "after its exchange in event %d the reader has no mirror of its peer although the registry, the list file "
                               "and the state file are complete" % k, {"kind": "view", "case": c, "event": k})
                 break
@@ -801,10 +801,10 @@ def check_view(run, exe, model, cases, scratch, fixflags="1 1"):
                                   "the first %d bytes of the peer's hills file (records of %s bytes)" % (k, rec["ev"], show(cont), [b for (_, b) in Dp],
                                   rec["view_hills_bytes"], reclen), {"kind": "view", "case": c, "event": k})
                     break
-                if shared_at.get(k) and reclen and rec.get("files_ok", True) and rec["p_state_step"] is not None:
-                    S = rec["p_state_step"]
+                if shared_at.get(k) and reclen and rec.get("files_ok", True) and rec.get("view_state_step") is not None:
+                    S = rec["view_state_step"]
                     n_state = sum(1 for (it, _) in Dp if it <= S)
-                    n_file = 0 if rec.get("mid") else (rec["view_hills_bytes"] + 1) // reclen
+                    n_file = (rec["view_hills_bytes"] + 1) // reclen
                     if kpre < n_state + n_file:
                         run.violation("view:visible-hills-missing" + (":exchange-inside-state-rewrite" if known_hole else ""), "after its exchange in event %d the reader holds %d hills of its peer (bins %s) although the "
                                       "state file (step %d, %d hills) and %d complete records (%d bytes) were visible" %
@@ -827,7 +827,7 @@ def check_view(run, exe, model, cases, scratch, fixflags="1 1"):
                 irec = 0 if ipos <= 0 else (ipos + 1) // reclen if reclen and (ipos + 1) % reclen == 0 else -1
                 isum = {"sync": int(mir["in_sync"]), "S": int(mir["state_step"]), "pos": irec, "cont": show(cont)}
                 msum = {"sync": mm["sync"], "S": mm["S"], "pos": mm["pos"], "cont": show(counts_of(mm["cont"], NB))}
-                if isum != msum or (not mq["ok"] and not inside_at[k]):
+                if isum != msum or not mq["ok"]:
                     isum["pos_bytes"] = ipos
                     run.mismatch("view", {"case": c, "event": k, "bytes": rec["view_hills_bytes"]}, isum, dict(msum, trace_ok=mq["ok"]))
                     tie_ok = False
